@@ -238,21 +238,39 @@ def sharded_cases(ctx: Ctx, n: int, suite: str = "read_object_sharded"):
     if not c07._ensure_gloo():
         ctx.notes.append("1-rank gloo group unavailable: sharded read_object suite skipped")
         return
-    for _ in range(n):
+    for it_ in range(n):
         if ctx.time_left() < 10:
             break
-        rows, cols = ctx.rng.randint(2, 8), ctx.rng.randint(1, 3)
+        irregular = ctx.rng.random() < 0.5 or it_ == 0       # 2-d layouts that are not a grid (T-junctions), shards listed in any order
+        rows, cols = ctx.rng.randint(2, 8), (ctx.rng.randint(2, 6) if irregular else ctx.rng.randint(1, 3))
         dt = ctx.rng.choice([torch.float32, torch.int64, torch.bfloat16, torch.uint8])
+        if it_ == 0:
+            rows, cols = 8, 8
         base = (torch.arange(rows * cols) * 3 + 1).reshape(rows, cols)
         global_t = base.to(dt)
         cuts = sorted({0, rows} | {ctx.rng.randint(1, rows - 1) for _ in range(ctx.rng.randint(0, 3))})
         blocks = list(zip(cuts, cuts[1:]))
+        boxes = None
+        if irregular:
+            from props import c08
+            c08._setup()
+            boxes = c08._rand_guillotine(ctx.rng, [rows, cols], max_boxes=6)
+            if it_ == 0:
+                # corpus layout: the shard with the greatest offsets ([4,0]) does not own the far corner ([8,8])
+                rows, cols = 8, 8
+                boxes = [[[0, 0], [4, 4]], [[0, 4], [8, 4]], [[4, 0], [4, 4]]]
+            blocks = boxes
         kn = {"shard": ctx.rng.choice([None, 1, 8, 16]), "slab": ctx.rng.choice([None, 1, 16]), "nobatch": ctx.rng.random() < 0.4,
               "budget": 10 ** 9}
         world = sim.World(1)
 
         def take():
-            st = c07._mk_sharded(global_t.clone(), blocks)
+            if boxes is not None:
+                from props import c08
+                tensors = [global_t[o[0]:o[0] + z[0], o[1]:o[1] + z[1]].clone() for o, z in boxes]
+                st = c08._build_st([rows, cols], boxes, str(dt).replace("torch.", ""), tensors, None)
+            else:
+                st = c07._mk_sharded(global_t.clone(), blocks)
             Snapshot.take(ROOT, {"s": gen.RecStateful({"st": st, "w": torch.ones(3)})})
         with sim.knobs(**kn):
             try:
@@ -277,6 +295,47 @@ def sharded_cases(ctx: Ctx, n: int, suite: str = "read_object_sharded"):
                     ctx.fail("read-object-value", "read_object of a sharded entry differs from the saved global tensor", inp, d, suite=suite)
                 ctx.count("entry.ShardedTensorEntry")
                 ctx.case(suite, inp, nontrivial=True, key=[inp, list(gen.tensor_bytes(global_t))])
+
+
+def real_fs_many_pieces(ctx: Ctx, n: int, suite: str = "read_object_real_fs"):
+    """A chunked tensor whose many one-row chunks sit in ONE slab file, read with read_object through the REAL filesystem
+    plugin under budgets that admit several pieces at once (concurrent ranged reads of one file)."""
+    import shutil
+    import gen
+    import sim
+    import torch
+    from common import OUT_DIR
+    from torchsnapshot import Snapshot
+    for i in range(n):
+        if ctx.time_left() < 10:
+            break
+        rows = ctx.rng.choice([48, 64, 96])
+        dt = ctx.rng.choice([torch.float32, torch.int16, torch.float64])
+        t = (torch.arange(rows * 4) * 7 + 3).reshape(rows, 4).to(dt)
+        row_bytes = 4 * t.element_size()
+        fs_dir = os.path.join(OUT_DIR, f"c18_fs_{os.getpid()}")
+        shutil.rmtree(fs_dir, ignore_errors=True)
+        world = sim.World(1)
+        world.storage = sim.FsStore(fs_dir)
+        try:
+            with sim.knobs(chunk=row_bytes, slab=10 ** 6, budget=10 ** 9):
+                world.run1(lambda: Snapshot.take(ROOT, {"s": gen.RecStateful({"big": t.clone(), "w": torch.ones(3)})}))
+            for budget in [None, 8 * row_bytes, 48 * row_bytes, 10 ** 6]:
+                inp = {"rows": rows, "dtype": str(dt), "budget": budget, "real_fs": True}
+                try:
+                    got = world.run1(lambda: Snapshot(ROOT).read_object("0/s/big", memory_budget_bytes=budget))
+                except Exception as e:  # noqa
+                    ctx.fail("read-object-raised", f"read_object through the real FS plugin raised {type(e).__name__}: {str(e)[:200]}", inp, None, suite=suite)
+                    import gc
+                    gc.collect()
+                    continue
+                d = gen.deep_eq(t, got)
+                if d is not None:
+                    ctx.fail("read-object-value", "read_object through the real FS plugin differs from the saved tensor", inp, d, suite=suite)
+                ctx.count("real_fs.reads")
+                ctx.case(suite, inp, nontrivial=True, key=[inp, i])
+        finally:
+            shutil.rmtree(fs_dir, ignore_errors=True)
 
 
 def gen_case(rng) -> Dict[str, Any]:
